@@ -86,7 +86,7 @@ def dispatch(chk: Check) -> None:
     # MessageBuilder
     mb = prog.cls('process_comms.MessageBuilder')
     for name in ('play', 'pause', 'kill', 'status'):
-        f = mb.methods.get(name)
+        f = prog.view(mb.methods.get(name))
         chk.need(f is not None, f'MessageBuilder.{name} missing')
         rets = [r for r in ast.walk(f.node) if isinstance(r, ast.Return)]
         ok = len(rets) == 1 and isinstance(rets[0].value, ast.Dict)
@@ -104,7 +104,7 @@ def dispatch(chk: Check) -> None:
     for cq in ('process_comms.RemoteProcessController', 'process_comms.RemoteProcessThreadController'):
         c = prog.cls(cq)
         for meth, builder in (('pause_process', 'pause'), ('play_process', 'play'), ('kill_process', 'kill'), ('get_status', 'status')):
-            f = c.methods.get(meth)
+            f = prog.view(c.methods.get(meth))
             chk.need(f is not None, f'{cq}.{meth} missing')
             sends = [x for x in calls_in_func(f, 'rpc_send')]
             ok = len(sends) == 1 and norm(sends[0].args[0]) == f.params[1]
@@ -120,7 +120,7 @@ def dispatch(chk: Check) -> None:
             chk.ob('TAB-controllers', f, ok, f'{c.name}.{meth} sends MessageBuilder.{builder}(text) by rpc_send(pid, ...)', kind='rpc-send')
     tc = prog.cls('process_comms.RemoteProcessThreadController')
     for meth, intent, builder in (('pause_all', 'PAUSE', 'pause'), ('play_all', 'PLAY', None), ('kill_all', 'KILL', 'kill')):
-        f = tc.methods.get(meth)
+        f = prog.view(tc.methods.get(meth))
         sends = [x for x in calls_in_func(f, 'broadcast_send')]
         ok = len(sends) == 1 and any(k.arg == 'subject' and norm(k.value) == f'Intent.{intent}' for k in sends[0].keywords)
         chk.ob('TAB-controllers', f, ok, f'{meth} broadcasts with subject Intent.{intent}', kind='broadcast-subject')
